@@ -34,6 +34,7 @@ NAME_WORDS = {
     'saio_offset': ['saio', 'senc', 'auxiliary', 'cenc'],
     'timeline_gap': ['timeline', 'gap', 's@t', 'discontinuity', 'start time'],
     'ast_changed': ['availabilitystarttime'],
+    'patch_attr': ['patch'],
 }
 
 # abstract configuration class -> concrete (template, mode, query fragments)
@@ -225,7 +226,7 @@ def run_batch(args: tuple[str, list[dict]]) -> list[dict]:
             res = V.run_session(da, url, s['mode'], s['encrypted'], s['duration'], fault=fault,
                                 max_loops=s.get('max_loops', 30), representation_info=s.get('repinfo', True))
             res['server_exceptions'] = [str(x)[:200] for x in da.exceptions[n_exc:]][:3]
-            if fault is not None and fault.applied_url and fault.target == 'manifest':
+            if fault is not None and fault.applied_url and fault.target in ('manifest', 'patch'):
                 res['faulted_doc'] = fault.rewritten
             loc = locate(res)
             lines: list[dict[str, Any]] = [{
